@@ -128,6 +128,9 @@ impl Du {
         let mut r = self.unary(s, s1, s2, false);
         // the implementation evaluates 1/(1+exp(-x)): a few more roundings than one
         r.m += 3.0 * s.abs() + self.m * s1;
+        // and its derivative s*(1-s) from the cached s: near saturation (1-s) cancels, so the
+        // derivative carries an absolute error of the order eps*s rather than a relative one
+        r.md += 2.0 * s.abs() * self.d.abs();
         r
     }
 }
